@@ -1,0 +1,18 @@
+//go:build verif
+
+package memberlist
+
+// verifYieldFn is installed by the deterministic-simulation harness (build tag
+// "verif" only). It is called at a few scheduling seams where no lock is held
+// so that a seeded scheduler can decide which goroutine proceeds.
+var verifYieldFn func(site, node string)
+
+func verifYield(site string, m *Memberlist) {
+	if f := verifYieldFn; f != nil {
+		name := ""
+		if m != nil && m.config != nil {
+			name = m.config.Name
+		}
+		f(site, name)
+	}
+}
